@@ -121,6 +121,16 @@ def validate(cases, report, name):
 
 def run(prop, tier):
     report = Report(prop, tier)
+    # design level: the expansion algorithm as implemented (JasmMacroPass) against the property-level
+    # meaning (InlineRef / Unresolved); the control is the pinned tree's algorithm and must fail
+    for cfg, must_fail in ([("MC_MacroPass_C13.cfg", False)] if prop == "C13" else
+                           [("MC_MacroPass_C19.cfg", False), ("MC_MacroPass_C19_control.cfg", True)]):
+        st = tlc.run("MC_MacroPass", cfg=cfg)
+        report.add_tlc(st, f"design-level MC_MacroPass {cfg}")
+        if bool(st["violated"]) != must_fail:
+            raise MachineryError(f"MC_MacroPass {cfg}: expected {'a violation' if must_fail else 'no violation'}\n"
+                                 + st["stdout"][-1500:])
+        tlc.cleanup(st)
     export = "Export_C13" if prop == "C13" else "Export_C19"
     U = matchpipe.export_universe(export, f"{export}_{tier}.cfg", report)
     docs = U["docs"]
